@@ -33,19 +33,46 @@ TOL_MODEL = 1e-9
 # ---------------------------------------------------------------------------------------------
 # observation helpers
 
-_TRACE = {'target': None, 'log': None}
+_TRACE = {'target': None, 'log': None, 'touch': None, 'created': 0}
 _TRACED_CLS = []
 
 
 def traced_class():
-    """A Wavefront subclass that records attribute writes made on one designated object."""
+    """A Wavefront subclass that records attribute writes made on one designated object.  Installing it also
+    instruments `hcipy.Wavefront.__init__` and `.copy` (transparent wrappers, active only during a traced call):
+    every wavefront object created during the call is counted, and what is done *to the designated object* is
+    recorded in order -- `.copy()` called on it ('copy'), a new Wavefront constructed around its very array ('wrap'),
+    attribute writes (the attribute's name)."""
     if not _TRACED_CLS:
         import hcipy
+        base = hcipy.Wavefront
+        orig_init, orig_copy = base.__init__, base.copy
+
+        def counting_init(self, *args, **kwargs):
+            orig_init(self, *args, **kwargs)
+            tgt = _TRACE['target']
+            if tgt is not None and _TRACE['touch'] is not None and self is not tgt:
+                _TRACE['created'] += 1
+                if np.shares_memory(np.asarray(self.electric_field), np.asarray(tgt.electric_field)):
+                    _TRACE['touch'].append('wrap')
+
+        def counting_copy(self):
+            tgt = _TRACE['target']
+            if tgt is not None and _TRACE['touch'] is not None:
+                _TRACE['created'] += 1
+                if self is tgt:
+                    _TRACE['touch'].append('copy')
+            return orig_copy(self)
+        counting_init.__doc__, counting_copy.__doc__ = orig_init.__doc__, orig_copy.__doc__
+        base.__init__ = counting_init
+        base.copy = counting_copy
 
         class TracedWavefront(hcipy.Wavefront):
             def __setattr__(self, k, v):
                 if _TRACE['target'] is self and _TRACE['log'] is not None:
                     _TRACE['log'].append(k)
+                    if _TRACE['touch'] is not None:
+                        _TRACE['touch'].append(k)
                 object.__setattr__(self, k, v)
         _TRACED_CLS.append(TracedWavefront)
     return _TRACED_CLS[0]
@@ -132,10 +159,15 @@ def snap_diff(a, b):
     return res
 
 
-def call(el, direction, wf, trace=None):
-    """Run forward/backward; returns a list of output wavefronts (one unless the element splits)."""
+def call(el, direction, wf, trace=None, touch=None):
+    """Run forward/backward; returns a list of output wavefronts (one unless the element splits).
+    `trace`: list receiving the names of the attributes of `wf` that are assigned during the call;
+    `touch`: list receiving, in order, 'copy' / 'wrap' / attribute names (see traced_class), followed at the end by
+    the number of wavefront objects created during the call."""
     _TRACE['target'] = wf if trace is not None else None
     _TRACE['log'] = trace
+    _TRACE['touch'] = touch if trace is not None else None
+    _TRACE['created'] = 0
     try:
         with contextlib.redirect_stdout(io.StringIO()), warnings.catch_warnings():
             warnings.simplefilter('ignore')
@@ -143,6 +175,9 @@ def call(el, direction, wf, trace=None):
     finally:
         _TRACE['target'] = None
         _TRACE['log'] = None
+        _TRACE['touch'] = None
+        if touch is not None:
+            touch.append(_TRACE['created'])
     if isinstance(out, (tuple, list)):
         return list(out), True
     return [out], False
@@ -415,11 +450,11 @@ def run_case(entry, el, case, fresh_el=None, track=False):
     def fail(clause, what):
         bad.append(('%s %s' % (clause, tag), '%s: %s [%s, wavelength %g]' % (clause, what, entry.name, wl)))
 
-    def guarded(element, wf, base, stage, deep=False, trace=None):
+    def guarded(element, wf, base, stage, deep=False, trace=None, touch=None):
         """One call with the input snapshotted before and after (every call of the case, not only the first: an element
         may touch its input only on a cache miss, or only on a hit)."""
         b = snapshot(wf, base, lazy, deep)
-        res = call(element, direction, wf, trace)
+        res = call(element, direction, wf, trace, touch)
         for k in snap_diff(b, snapshot(wf, base, False, deep)):
             fail('input-modified:' + k, 'the wavefront passed to %s was changed (%s) by the %s' % (direction, k, stage))
         return res
@@ -448,8 +483,9 @@ def run_case(entry, el, case, fresh_el=None, track=False):
     # (i) input intact + first result
     s0 = state_snapshot(el) if track else None
     trace = []
+    touch = []
     try:
-        outs1, multi = guarded(el, wf1, E1, 'first call', deep=True, trace=trace)
+        outs1, multi = guarded(el, wf1, E1, 'first call', deep=True, trace=trace, touch=touch)
     except Exception as ex:     # noqa
         fail('raises', '%s raised %s: %s' % (direction, type(ex).__name__, str(ex)[:120]))
         return bad, obs
@@ -464,6 +500,8 @@ def run_case(entry, el, case, fresh_el=None, track=False):
         # the later clauses would run on a corrupted input / element: report the modification alone
         return bad, obs
     obs['trace'] = list(trace)
+    obs['touches'] = [t for t in touch[:-1] if not t.startswith('_')]
+    obs['created'] = touch[-1]
     obs['ret_is_input'] = int(any(o is wf1 for o in outs1))
     obs['ret_shares'] = int(any(np.shares_memory(np.asarray(o.electric_field), np.asarray(wf1.electric_field)) for o in outs1))
     obs['ret_shares_grid'] = int(any(o.electric_field.grid is wf1.electric_field.grid for o in outs1))
@@ -774,7 +812,7 @@ def effect_program(entry, el, direction, kind):
             return 'lyotFwdStop' if stop else 'lyotFwd'
         return 'lyotBwdStop' if stop else 'lyotBwd'
     if fam == 'lyot-jones':
-        return 'vectorZernike'
+        return 'vectorZernike' if kind == 'scalar' else 'vectorZernikePol'
     if fam in ('sandwich', 'fibre-nuller', 'modulated'):
         return 'chain'
     if fam == 'system':
@@ -1412,7 +1450,7 @@ def run(ctx):
         if what == 'effects':
             prog = payload[2]
             toks = ans.split(' ')
-            if len(toks) != 8 or toks[0] != 'ok':
+            if len(toks) != 10 or toks[0] != 'ok' or not toks[8].startswith('touches=') or not toks[9].startswith('created='):
                 raise MachineryError('unexpected effects answer %r' % ans)
             if toks[1] != 'safe=1' or toks[5] != 'safeGrid=1' or toks[6] != 'safeStokes=1':
                 ctx.disagree('C06 effects', {'case': label, 'program': prog, 'model': ans,
@@ -1420,6 +1458,21 @@ def run(ctx):
                 continue
             if ' '.join(toks[2:5]) != effects_line(obs):
                 ctx.disagree('C06 effects', {'case': label, 'program': prog, 'model': ans, 'impl': effects_line(obs)})
+            # what was done to the input object, in order ('copy' of it, a wavefront 'wrap'ped around its array, attribute
+            # writes), and how many wavefront objects the call created.  `chain` stands for compositions of arbitrary
+            # parts (no fixed trace); the programs with a loop over layers / scales are written for one round of the
+            # loop, so the code creates at least as many objects as the model's run.
+            obs_touch = 'touches=%s' % (','.join(obs['touches']) or '-')
+            m_created = int(toks[9][len('created='):])
+            if prog == 'chain':
+                ctx.count('object-trace: opaque composition (not compared)')
+            else:
+                looping = prog == 'copyThenChain' or prog.startswith('multiscale') or prog.startswith('vvc')
+                ctx.count('object-trace: %s' % ('touches exact, created >= one round of the loop' if looping else 'touches and created exact'))
+                if toks[8] != obs_touch or (obs['created'] < m_created if looping else obs['created'] != m_created):
+                    ctx.disagree('C06 effects', {'case': label, 'program': prog, 'model': ' '.join(toks[8:10]),
+                                                 'impl': '%s created=%d' % (obs_touch, obs['created']),
+                                                 'note': 'what the call does to the object it was given / number of wavefront objects it creates'})
             # aliasing of the attached objects: the model over-approximates ("may point to the input's grid"), so the
             # comparison is one-sided: a result that really points to the input's grid object must be known to the model;
             # the Stokes vector of a result is never the input's object (the model copies it on every construction)
